@@ -84,7 +84,8 @@ def _cmds(fdp, lo, hi):
     for _ in range(fdp.ConsumeIntInRange(lo, hi)):
         out.append({"kind": "lines" if fdp.ConsumeIntInRange(0, 2) == 0 else "plain",
                     "text": c01.CMD_TEXTS[fdp.ConsumeIntInRange(0, len(c01.CMD_TEXTS) - 1)],
-                    "reply": _reply(fdp), "then": [0, 0, 0, 1, 2][fdp.ConsumeIntInRange(0, 4)]})
+                    "reply": _reply(fdp), "then": [0, 0, 0, 1, 2][fdp.ConsumeIntInRange(0, 4)],
+                    "cbret": [None, None, "len", "false", "obj"][fdp.ConsumeIntInRange(0, 4)]})
     return out
 
 
@@ -129,7 +130,7 @@ def decode_c02(data):
         events.append({"pos": fdp.ConsumeIntInRange(0, len(cmds)), "late": fdp.ConsumeBool(),
                        "ev": {"form": form, "name": NAMES[fdp.ConsumeIntInRange(0, len(NAMES) - 1)], "first": first,
                               "more": more, "tok": fdp.ConsumeBool()}})
-    beh = ["ok", "ok", "raise", "rm_self", "rm:0", "rm:1", "add:1", "add:2"]
+    beh = ["ok", "ok", "raise", "raise0", "rm_self", "rm:0", "rm:1", "add:1", "add:2"]
     listeners = []
     for _ in range(fdp.ConsumeIntInRange(1, 4)):
         listeners.append({"name": NAMES[fdp.ConsumeIntInRange(0, 3)],
